@@ -657,8 +657,8 @@ def exclusions():
 
 def dfs_configs(tier):
     """(configuration, preemption bound) pairs; every schedule within the bound is executed.
-    Measured tree sizes (file-remove): 2x2: k=2 0.4k, k=3 2.4k, k=4 11k schedules; 1x1x1: k=2 3.3k, k=3 31k;
-    SemLock n>=2 multiplies by the randint draws."""
+    Measured tree sizes (file-remove, with the inode re-check): 2x2: k=2 0.9k, k=3 4.6k, k=5 119k schedules;
+    1x1x1: k=2 5.2k, k=3 56k; SemLock n>=2 multiplies by the randint draws."""
     quick = tier == 'quick'
 
     def cfg(kind, remove, n, cycles, perm=None, t=1, keep=None, faults=()):
@@ -668,12 +668,13 @@ def dfs_configs(tier):
     for kind, remove, n in (('file', True, 1), ('file', False, 1), ('sem', False, 1), ('sem', False, 2)):
         big = kind == 'sem' and n > 1
         main = kind == 'file' and remove
-        out.append((cfg(kind, remove, n, [2, 2]), (2 if big else 3) if quick else (4 if big else 5)))
-        out.append((cfg(kind, remove, n, [1, 1, 1]), 2 if quick else (4 if main else 3)))
+        sem1 = kind == 'sem' and n == 1        # SemLock(n=1) runs the same calls as FileLock keep-the-file
+        out.append((cfg(kind, remove, n, [2, 2]), (2 if big or sem1 else 3) if quick else (4 if big else 5)))
+        out.append((cfg(kind, remove, n, [1, 1, 1]), (1 if sem1 else 2) if quick else (4 if main else 3)))
         if kind == 'file' or not quick:
             # file_permissions adds the exists/chmod calls; SemLock shares that code path with FileLock
             out.append((cfg(kind, remove, n, [2, 2], perm='644'), 2 if quick else 3))
-            out.append((cfg(kind, remove, n, [1, 1, 1], perm='644'), 2 if quick or not main else 3))
+            out.append((cfg(kind, remove, n, [1, 1, 1], perm='644'), (2 if main else 1) if quick else (3 if main else 2)))
     # longer polling (three attempts per lock call) for the release-by-remove style
     out.append((cfg('file', True, 1, [2, 2], t=2), 2 if quick else 4))
     # unlink refused (EPERM, file stays) in some unlock calls; lock objects kept alive / thrown away
@@ -779,7 +780,7 @@ def hyp_shard(shard, nshards, seed, tier):
     stats = core.Stats()
     excl = exclusions()
     lockdir = scratch_dir()
-    n = (16000 if tier == 'quick' else 480000) // nshards
+    n = (12000 if tier == 'quick' else 400000) // nshards
 
     def check(case, st_):
         res = run_case(case['cfg'], HypChooser(case['pairs'], case['data']), lockdir, excl)
